@@ -21,7 +21,7 @@ def run(tier):
         '\\pagebreak between blocks, sizes 0,1,2,34,35,36,69,70,71,105,106). guess_output_format is compared with the documented '
         'table for every (request, target) pair of a menu incl. an invalid request.')
     run.bounds = ['<=%d rows per formula from a 12-entry constraint menu / 7-entry clause menu' % (2 if tier == 'quick' else 3), '6 label formats, 4 flag combinations']
-    run.bounds += ['LaTeX pages: 0..106 rows; OPB/DIMACS row counts 63..2048 around every power of two', 'render - extend (9 ways) - render again, twice, CNF and OPB']
+    run.bounds += ['LaTeX pages: 0..106 rows; OPB/DIMACS row counts 63..2048 around every power of two', 'render - extend (12 ways, three of them raising the variable count without a clause) - render again, twice, CNF and OPB']
     run.outside = ['TeX-level validity of names containing TeX specials', 'more than 3 terms per constraint', 'the missing ";" terminator of the OPB standard (the documented output has none)']
     run.assumptions = ['the two readers written for the check define what a rendering "denotes"', 'CrossHair exhaustiveness accounting']
     T = 300 if tier == 'quick' else 1200
